@@ -5,6 +5,8 @@
 #   mode: native | release | miri:<MIRIFLAGS> | hook:<cfg>:<hook-only.diff>[:<hook+change.diff>]
 set -u
 D=$(readlink -f "$1"); MODE="${2:-native}"
+FEAT=()
+if [ -n "${FEATURES:-}" ]; then FEAT=(--features "$FEATURES"); fi
 WT=/tmp/wt_confirm_$(basename $D)
 export CARGO_NET_OFFLINE=true
 git -C /repo worktree remove --force $WT 2>/dev/null; rm -rf $WT
@@ -14,10 +16,10 @@ export CARGO_TARGET_DIR=/tmp/tgt_confirm_$(basename $D)
 res() { echo "RESULT $(basename $D) $1"; }
 run_demo() { # returns exit code of demo run
   case "$MODE" in
-    native) timeout 600 cargo test --offline --test seeded_demo -- --test-threads=1 >/tmp/confirm_demo.log 2>&1 ;;
-    release) timeout 900 cargo test --offline --release --test seeded_demo -- --test-threads=1 >/tmp/confirm_demo.log 2>&1 ;;
-    miri:*) MIRIFLAGS="${MODE#miri:}" timeout 1800 cargo +nightly miri test --offline --test seeded_demo >/tmp/confirm_demo.log 2>&1 ;;
-    hook:*) IFS=: read -r _ CFG _ _ <<<"$MODE"; RUSTFLAGS="--cfg $CFG" timeout 900 cargo test --offline --test seeded_demo -- --test-threads=1 >/tmp/confirm_demo.log 2>&1 ;;
+    native) timeout 600 cargo test --offline "${FEAT[@]}" --test seeded_demo -- --test-threads=1 >/tmp/confirm_demo.log 2>&1 ;;
+    release) timeout 900 cargo test --offline --release "${FEAT[@]}" --test seeded_demo -- --test-threads=1 >/tmp/confirm_demo.log 2>&1 ;;
+    miri:*) MIRIFLAGS="${MODE#miri:}" timeout 1800 cargo +nightly miri test --offline "${FEAT[@]}" --test seeded_demo >/tmp/confirm_demo.log 2>&1 ;;
+    hook:*) IFS=: read -r _ CFG _ _ <<<"$MODE"; RUSTFLAGS="--cfg $CFG" timeout 900 cargo test --offline "${FEAT[@]}" --test seeded_demo -- --test-threads=1 >/tmp/confirm_demo.log 2>&1 ;;
   esac
 }
 # 1. suite with the patch
